@@ -94,7 +94,12 @@ func checkC02(c *Ctx, r *Report) {
 			}
 		})
 	}
-	for _, n := range []string{"Tag.logger", "LoggerWrapper.logger"} {
+	var bindNames []string
+	for _, n := range bind {
+		bindNames = append(bindNames, n)
+	}
+	sort.Strings(bindNames)
+	for _, n := range bindNames {
 		key := "C02.writers:" + n
 		ws := uniq(writers[n])
 		sort.Strings(ws)
@@ -866,7 +871,14 @@ func (c *Ctx) checkDestroy(r *Report, bind map[*types.Var]string) {
 		r.OK(key, "returns at once when not initialised; otherwise clears the flag and both lists on every path")
 	}
 	// unbind loops
-	reg := map[string]string{"Tag.logger": globalPath(c.names().TagRegistry), "LoggerWrapper.logger": globalPath(c.names().HandleMap)}
+	reg := map[string]string{}
+	for _, n := range bind {
+		if strings.HasPrefix(n, "Tag.") {
+			reg[n] = globalPath(c.names().TagRegistry)
+		} else {
+			reg[n] = globalPath(c.names().HandleMap)
+		}
+	}
 	for f, name := range bind {
 		key := "C16.unbind:Destroy#" + name
 		found := false
@@ -1023,6 +1035,27 @@ func (c *Ctx) checkOnceGuard(r *Report, bind map[*types.Var]string) {
 				bad = append(bad, fmt.Sprintf("%s at %s happens before the initialised flag is raised: if Refresh fails after it, Destroy is a no-op and the bindings keep pointing at the rejected configuration's loggers", eff, c.instrPos(in)))
 			}
 		})
+	}
+	// loggers/appenders become visible to Destroy only after all of them were started: Destroy stops what is in the
+	// lists, and stopping a never-started asynchronous logger blocks on its nil channel
+	var starts, pubs []ssa.Instruction
+	eachInstr(rf, func(in ssa.Instruction) {
+		if ci, ok := in.(ssa.CallInstruction); ok && ci.Common().IsInvoke() && ci.Common().Method.Name() == "Start" {
+			starts = append(starts, in)
+		}
+		if st, ok := in.(*ssa.Store); ok {
+			p := c.accessPath(st.Addr, fr)
+			if p == c.names().LoggerList || p == c.names().AppenderList {
+				pubs = append(pubs, in)
+			}
+		}
+	})
+	for _, p := range pubs {
+		for _, s := range starts {
+			if canReachBlock(p.Block(), s.Block()) {
+				bad = append(bad, fmt.Sprintf("loggers/appenders are published to the lists Destroy walks (%s) before all Start calls have succeeded (%s): after a Refresh that fails in the start phase, Destroy stops never-started loggers (an asynchronous logger blocks forever on its nil channel)", c.instrPos(p), c.instrPos(s)))
+			}
+		}
 	}
 	if len(bad) > 0 {
 		r.Fail(key, c.instrPos(guard), "%s", strings.Join(uniq(bad), "; "))
